@@ -1,9 +1,47 @@
-(* C01 — iterative closest-nodes lookup.  Property theorems only.
-   Model: Model/Lookup.v.  (Proofs in progress: see Proofs/Lookup.v.) *)
-From SV Require Import Lib.Base Gen.LookupConsts Model.Lookup.
+(* C01 — iterative closest-nodes lookup.  Property theorems only; every proof is
+   [exact lemma].  Model: Model/Lookup.v, proofs: Proofs/Lookup.v.
+   The adversary is the arbitrary function [reply]. *)
+From SV Require Import Lib.Base Gen.LookupConsts Model.Lookup Proofs.Lookup.
+From Coq Require Import Sorting.Sorted.
 Local Open Scope N_scope.
 
 (* the numbers the property relies on, from the regenerated constants *)
 Theorem C01_constants :
   LK_ALPHA = 3 /\ LK_MAX_ITERATIONS = 20 /\ LK_MAX_CANDIDATE_NODES = 200 /\ 0 < LK_ALPHA.
 Proof. repeat split; reflexivity. Qed.
+
+(* 1. whatever peers reply, at most MAX_ITERATIONS * ALPHA requests are sent
+      (termination itself is structural: [loop] recurses on its fuel) *)
+Theorem C01_request_bound : forall keyof reply self selfs_marked selfs_all target count init,
+  (length (sent (lookup keyof reply self selfs_marked selfs_all target count init))
+   <= N.to_nat LK_MAX_ITERATIONS * N.to_nat LK_ALPHA)%nat.
+Proof. exact lookup_request_bound. Qed.
+
+(* 2. no peer is queried twice and the local node (under any of its ids) is never sent a request *)
+Theorem C01_no_self_no_dup : forall keyof reply self selfs_marked selfs_all target count init,
+  NoDup init -> (forall p, In p init -> ~ In p selfs_all) ->
+  incl selfs_marked selfs_all -> In self selfs_marked ->
+  let s := lookup keyof reply self selfs_marked selfs_all target count init in
+  NoDup (sent s) /\ forall p, In p (sent s) -> ~ In p selfs_all.
+Proof. exact lookup_no_self_no_dup. Qed.
+
+(* 3. the result: at most [count] distinct nodes, ascending by distance, each the local
+      node or a peer that answered during this lookup *)
+Theorem C01_result_wf : forall keyof reply self selfs_marked selfs_all target count init,
+  NoDup init -> (forall p, In p init -> ~ In p selfs_all) ->
+  incl selfs_marked selfs_all -> In self selfs_marked ->
+  let s := lookup keyof reply self selfs_marked selfs_all target count init in
+  (length (best s) <= count)%nat /\ NoDup (best s) /\
+  StronglySorted (fun a b => dist keyof target a <= dist keyof target b) (best s) /\
+  forall p, In p (best s) -> p = self \/ (In p (sent s) /\ reply p <> None).
+Proof. exact lookup_result_wf. Qed.
+
+(* 4. the result is the [count] closest among the local node and the peers that answered *)
+Theorem C01_best_is_closest : forall keyof reply self selfs_marked selfs_all target count init,
+  NoDup init -> (forall p, In p init -> ~ In p selfs_all) ->
+  incl selfs_marked selfs_all -> In self selfs_marked ->
+  let s := lookup keyof reply self selfs_marked selfs_all target count init in
+  forall p, (p = self /\ (0 < count)%nat) \/ (In p (sent s) /\ reply p <> None) ->
+    In p (best s) \/
+    (length (best s) = count /\ forall w, In w (best s) -> dist keyof target w <= dist keyof target p).
+Proof. exact lookup_best_is_closest. Qed.
